@@ -51,6 +51,7 @@ type tNode struct {
 func tFile(name string, size int, seed int64) *tNode {
 	return &tNode{Name: name, Kind: "file", Size: size, Seed: seed}
 }
+
 // tZero is a file of size bytes that is all NUL except for [dataFrom, dataTo).
 func tZero(name string, size, dataFrom, dataTo int) *tNode {
 	b := make([]byte, size)
@@ -437,6 +438,11 @@ func runC18(t *mon.T, raw json.RawMessage) {
 
 	// ---- car create
 	carPath := filepath.Join(T, "out.car")
+	if gen.Rand(d.Seed^7).Intn(4) == 0 {
+		// the archive's name was reserved beforehand (mktemp, os.CreateTemp): an empty file is there
+		must(os.WriteFile(carPath, nil, 0o600))
+		t.Cover("create:archive-path-holds-an-empty-file")
+	}
 	args := []string{"create", "-f", carPath}
 	if !d.Implied {
 		args = append(args, "--version", fmt.Sprint(d.Version))
@@ -445,15 +451,40 @@ func runC18(t *mon.T, raw json.RawMessage) {
 	expectUnder := "" // where the tree's contents are expected below the extraction directory
 	switch form {
 	case "wrap":
-		if gen.Rand(d.Seed^1).Intn(2) == 0 {
+		// the same request in the spellings a shell user produces: absolute or relative source, with a
+		// trailing separator (tab completion), a leading "./", the flag given with its default value
+		sp := gen.Rand(d.Seed ^ 1)
+		if sp.Intn(3) == 0 {
+			args = append(args, "--no-wrap=false")
+			t.Cover("create:spelling:--no-wrap=false")
+		}
+		switch k := sp.Intn(6); k {
+		case 0:
 			args = append(args, srcRoot)
-		} else { // relative source path
+		case 1:
+			args = append(args, srcRoot+"/")
+			t.Cover("create:spelling:trailing-separator")
+		default: // relative source path
 			cwd = srcParent
-			args = append(args, tree.Name)
+			nm := tree.Name
+			if k >= 4 {
+				nm = "./" + nm
+			}
+			if k%2 == 1 {
+				nm += "/"
+				t.Cover("create:spelling:trailing-separator")
+			}
+			args = append(args, nm)
 		}
 		expectUnder = tree.Name
 	case "no-wrap":
-		args = append(args, "--no-wrap", srcRoot)
+		sp := gen.Rand(d.Seed ^ 1)
+		flag := []string{"--no-wrap", "--no-wrap=true", "--no-wrap"}[sp.Intn(3)]
+		src := srcRoot
+		if sp.Intn(3) == 0 {
+			src += "/"
+		}
+		args = append(args, flag, src)
 	case "several":
 		for _, c := range tree.Children {
 			nm := filepath.Join(srcRoot, c.Name)
@@ -749,7 +780,7 @@ func init() {
 		},
 		Gen: genC18, Run: runC18,
 		MinCover: map[string]int{
-			"create:wrap": 40, "create:no-wrap": 40, "create:several": 15, "create:dot": 15, "create:version-1": 60, "create:version-2": 60,
+			"create:wrap": 40, "create:archive-path-holds-an-empty-file": 20, "create:spelling:trailing-separator": 10, "create:spelling:--no-wrap=false": 10, "create:no-wrap": 40, "create:several": 15, "create:dot": 15, "create:version-1": 60, "create:version-2": 60,
 			"archive:carv1": 60, "archive:carv2": 60, "root-agrees": 150,
 			"extract:-f": 150, "extract:-f . (into the current directory)": 150, "extract:-f (older, longer files already in place)": 150, "extract:-f (output directory below a symlinked directory)": 150, "extract:stdin (pipe)": 150, "extract:stdin (file)": 150,
 			"tree-reproduced:-f": 100, "tree-reproduced:stdin (pipe)": 50, "tree-reproduced:stdin (file)": 100,
